@@ -55,7 +55,9 @@ Inductive hstep :=
 | HPanic
 | HInitTPM (withLog : bool)
 | HCustom (id : Z) (panics : bool) (s : option slice)   (* harness step returning its own slice *)
-| HSetFlowFunc (id : Z) (fn : ffun).
+| HSetFlowFunc (id : Z) (fn : ffun)
+| HLogInit
+| HNil.                                      (* a nil step *)
 
 Definition htstep : Type := Z * hstep.
 Definition hfamily : Type := list (Z * list htstep).
@@ -75,6 +77,8 @@ Fixpoint resolve (h : heap) (s : hstep) : step :=
   | HInitTPM wl => SInitTPM wl
   | HCustom id p sl => SCustom id p (read h sl)
   | HSetFlowFunc id fn => SSetFlowFunc id fn
+  | HLogInit => SLogInit
+  | HNil => SNil
   end.
 
 Definition resolve_tstep (h : heap) (ts : htstep) : tstep := (fst ts, resolve h (snd ts)).
@@ -190,6 +194,15 @@ Fixpoint actions_h (s : hstep) (c : core) (h : heap) : outcome (option slice * h
       Ok (sl, h')
   | HCustom _ p sl => if p then Panic else Ok (sl, h)
   | HSetFlowFunc id fn => let '(h', sl) := alloc h [ASetFlowFunc id fn] in Ok (sl, h')
+  | HLogInit =>
+      (* a literal, or a list appended from nil: memory of the call itself *)
+      let '(h', sl) :=
+        alloc h (match c_tpm c with
+                 | None => [APanic]
+                 | Some _ => [ATPMLogAdd; ATPMLogAdd]
+                 end) in
+      Ok (sl, h')
+  | HNil => Panic
   end.
 
 (** * The interpreter with slices in its log *)
